@@ -29,6 +29,14 @@ def content(kind, n, rng):
         return bytes((i * 37 + 11) & 255 for i in range(n))
     if kind == "esc":
         return (b"\\\".();@ '\x00\xff" * (n // 11 + 1))[:n]
+    if kind == "bs":          # a backslash at every position: whatever the chunk borders are, one falls on each
+        return b"\\" * n
+    if kind == "bsdigit":     # text that reads as a presentation-format escape wherever it is cut
+        return (b"\\065" * (n // 4 + 1))[:n]
+    if kind == "quote":
+        return b'"' * n
+    if kind == "hi":          # octets the DNS library prints as \DDD
+        return bytes([0xe9, 0x5c, 0x30, 0x36, 0x35]) * (n // 5) + b"\xe9" * (n % 5)
     return bytes(n)
 
 
@@ -68,8 +76,20 @@ def cases(tier, rng):
                 else:
                     r = "down none %s" % hx(d)
                 cs.append(mk(qt, codec, rng.choice(DOMS) if thorough else dom, r, "data", n, ck))
+            # escape-sensitive octets at every chunk border (every splitter cuts somewhere inside these)
+            for ck in ("bs", "bsdigit", "quote", "hi"):
+                n = rng.choice([260, 520, 600, 1030]) if not thorough else rng.choice([254, 260, 507, 520, 600, 1030, 2000])
+                kind = rng.choice(["frag", "up", "down", "pkt"])
+                d = content(ck, n, rng)
+                r = {"frag": "frag none %d %s" % (n, hx(d)), "up": "up none %s" % hx(d), "down": "down none %s" % hx(d),
+                     "pkt": "pkt none 7 1 9 %s" % hx(d)}[kind]
+                cs.append(mk(qt, codec, dom, r, "border", n, ck))
+            # the number of records an order tag can count: A records carry 3 octets each behind a one-octet tag (255 / 256 / 257 records)
+            if qt == 1:
+                for n in (range(440, 500) if thorough else range(466, 482)):
+                    cs.append(mk(qt, codec, dom, "frag none %d %s" % (n, hx(content("cycle", n, rng))), "tag-capacity", n, "cycle"))
             # error and status responses
-            for e in (ERRS if thorough else [rng.choice(ERRS), rng.choice(ERRS)]) + ["custom:" + rng.bytes(rng.range(1, 9)).hex()]:
+            for e in (ERRS if thorough else [rng.choice(ERRS), rng.choice(ERRS)]) + ["custom:" + bytes(b or 1 for b in rng.bytes(rng.range(1, 9))).hex()]:   # Go error texts hold no NUL (c10_custom_error_nul_refuted shows what a NUL would do)
                 kind = rng.choice(["ver", "pkt", "opt", "frag", "up", "down", "error"])
                 r = {"ver": "ver %d %d %s" % (rng.choice([0, 1282, 4294967295]), rng.choice([0, 35, 36, 1295]), e),
                      "pkt": "pkt %s 0 0 0 #" % e, "opt": "opt %s" % e, "frag": "frag %s 0 #" % e, "up": "up %s #" % e,
